@@ -69,6 +69,8 @@ pub(super) fn creation_timestamp_of_currentfile(
             fmt,
         );
 
+        #[cfg(feature = "verif_hooks")]
+        crate::verif_hooks::point("rotate.rename", Some(&current_path))?;
         match std::fs::rename(current_path.clone(), rotated_path.clone()) {
             Ok(()) => {}
             Err(e) => {
